@@ -128,6 +128,9 @@ def prepare_bytes_decimal(data, schema):
 
     sign, digits, exp = data.as_tuple()
 
+    if not data.is_finite():
+        raise ValueError("NaN and infinite decimals have no Avro representation")
+
     if len(digits) > precision:
         raise ValueError("The decimal precision is bigger than allowed by schema")
 
@@ -161,6 +164,9 @@ def prepare_fixed_decimal(data, schema):
     # based on https://github.com/apache/avro/pull/82/
 
     sign, digits, exp = data.as_tuple()
+
+    if not data.is_finite():
+        raise ValueError("NaN and infinite decimals have no Avro representation")
 
     if len(digits) > precision:
         raise ValueError("The decimal precision is bigger than allowed by schema")
